@@ -62,6 +62,14 @@ CLAIMED = {
              'tolerance > 1 refused.',
         ref='DESIGN.md §6 C13',
         note=TRUST + 'Stableswap deposit tolerance and mixed-decimals slippage units are tracked as findings (see DESIGN.md).'),
+    'C16': dict(
+        text='create_pool executed through the public CreatePool message with symbolic creation fee, token-factory fee coins (none / other denom / same '
+             'denom / both) and arbitrary attached amounts: accepted iff funds equal exactly the required fees, fee routed to the collector, nothing kept, '
+             'parameter validation (asset counts, duplicates, decimals length, fee bounds, amp, identifier well-formed and unused) decided over the whole case '
+             'split with symbolic fee shares; deposits keep every immutable pool field and the asset order.',
+        ref='DESIGN.md §6 C16',
+        note=TRUST + 'Identifiers are concrete strings (fresh / taken / malformed); immutability is checked on deposits, swaps and withdrawals via the reserve-only '
+             'post-conditions of C02/C04.'),
     'C18': dict(
         text='Bounded symbolic execution of the real MIR of query_current_epoch / query_epoch with genesis, duration, block time and epoch id as '
              'unconstrained 64-bit symbols; every feasible path is decided by z3 (unsat of pre ∧ path ∧ ¬post). Full u64 ranges, no loop, so the only '
